@@ -43,6 +43,10 @@ pub struct Cfg {
     /// Fault classes enabled in this run (swarm testing).
     pub faults: FaultMix,
     pub n_actions: usize,
+    /// Twins: number of instances of the *real replica code* run under the key of the first
+    /// Byzantine validator (0 = none).  Each instance has its own disk and its own audience.
+    #[serde(default)]
+    pub twins: u32,
 }
 
 #[derive(Debug, Clone, Serialize, Deserialize, PartialEq, Default)]
@@ -109,6 +113,9 @@ pub enum Action {
     /// With `byz_next` the episode only starts if the leader of the view after `to`'s current one
     /// is Byzantine (it will speak to replicas which have just timed out on a hidden commit).
     HideCommit { to: u32, #[serde(default)] byz_next: bool },
+    /// Twins: redistribute the correct nodes among the twin instances.  Two bits per correct node:
+    /// values below the number of twins = that instance only, the value above = every instance.
+    Retwin { mask: u64 },
 }
 
 pub fn tag_of(node: usize, inc: u64) -> u64 {
@@ -140,6 +147,18 @@ pub struct Node {
     pub snap: Option<bft::verif::Snapshot>,
 }
 
+/// One instance of the real replica code running under a Byzantine validator's key ("twin").
+/// Nothing it does is subject to the oracles for correct nodes; what it sends is Byzantine traffic.
+pub struct Twin {
+    pub idx: usize,
+    pub clock: ctx::ManualClock,
+    pub store: Arc<Mutex<NodeStore>>,
+    pub live: Option<Incarnation>,
+    pub out: Option<channel::UnboundedReceiver<ConsensusInputMessage>>,
+    /// Correct nodes this instance talks to and hears from.
+    pub audience: Vec<bool>,
+}
+
 #[derive(Clone)]
 pub struct InFlight {
     pub id: u64,
@@ -153,6 +172,8 @@ pub struct Cluster {
     pub hub: Arc<Hub>,
     pub sched: Rc<Sched>,
     pub nodes: Vec<Node>,
+    /// Twin instances; addressed on the bus as `n + k`.
+    pub twins: Vec<Twin>,
     pub inflight: Vec<InFlight>,
     pub next_msg_id: u64,
     /// Partition group per node; messages between different groups are held.
@@ -251,6 +272,25 @@ impl Cluster {
                 snap: None,
             })
             .collect();
+        let twins: Vec<Twin> = match (0..n).find(|i| cfg.byz[*i]) {
+            Some(b) if cfg.twins > 0 => {
+                let mut rng = kit::stream(cfg.seed, "twins");
+                (0..cfg.twins.min(3))
+                    .map(|_| Twin {
+                        idx: b,
+                        clock: ctx::ManualClock::new(),
+                        store: Arc::new(Mutex::new(NodeStore::new(
+                            validator::BlockNumber(cfg.first_block),
+                            true,
+                        ))),
+                        live: None,
+                        out: None,
+                        audience: (0..n).map(|_| rng.gen_range(0..100) < 60).collect(),
+                    })
+                    .collect()
+            }
+            _ => vec![],
+        };
         let pubkeys = committee.pubkeys.clone();
         let adversary = Adversary::new(committee, kit::stream(cfg.seed, "adv"));
         let obs: Rc<std::cell::RefCell<Vec<Obs>>> = Default::default();
@@ -273,6 +313,7 @@ impl Cluster {
             hub,
             sched,
             nodes,
+            twins,
             inflight: vec![],
             next_msg_id: 0,
             group: vec![0; n],
@@ -360,6 +401,71 @@ impl Cluster {
             done,
             mgr: mgr_slot,
         });
+    }
+
+    /// Starts twin instance `k`: the same code as a correct node, under a Byzantine validator's key.
+    pub fn start_twin(&mut self, k: usize) {
+        if self.twins[k].live.is_some() {
+            return;
+        }
+        let hub = self.hub.clone();
+        let i = self.twins[k].idx;
+        let engine = SimEngine::new_incarnation(
+            i,
+            hub.committee.genesis.clone(),
+            self.twins[k].store.clone(),
+            hub.clone(),
+        );
+        let inc = engine.inc;
+        let (in_send, in_recv) = bft::create_input_channel();
+        let (out_send, out_recv) = channel::unbounded();
+        let (kill_send, kill_recv) = oneshot::channel();
+        let mgr_slot: Arc<Mutex<Option<Arc<EngineManager>>>> = Arc::default();
+        let slot = mgr_slot.clone();
+        let key = hub.committee.keys[i].clone();
+        let clock = self.twins[k].clock.clone();
+        let max_payload = self.cfg.max_payload;
+        let view_timeout = time::Duration::milliseconds(self.cfg.view_timeout_ms);
+        hub.ev(format!("twin{k} (key of n{i}) start"));
+        self.sched.set_spawn_tag(tag_of(i, 50_000 + k as u64));
+        let done = gtokio::spawn(async move {
+            let root = ctx::test_root(&clock);
+            let ctx = &root;
+            let (mgr, runner) =
+                match EngineManager::new(ctx, Box::new(engine), time::Duration::seconds(1)).await {
+                    Ok(x) => x,
+                    Err(ctx::Error::Canceled(_)) => return Ok(()),
+                    Err(ctx::Error::Internal(e)) => return Err(e),
+                };
+            *slot.lock().unwrap() = Some(mgr.clone());
+            let cfg = bft::Config::new(key, max_payload, view_timeout, mgr.clone(), validator::EpochNumber(0))?;
+            scope::run!(ctx, |ctx, s| async {
+                s.spawn_bg(async { runner.run(ctx).await });
+                s.spawn_bg(async { cfg.run(ctx, out_send, in_recv).await });
+                let _ = kill_recv.recv_or_disconnected(ctx).await;
+                Ok(())
+            })
+            .await
+        });
+        self.sched.set_spawn_tag(0);
+        self.twins[k].out = Some(out_recv);
+        self.twins[k].live = Some(Incarnation {
+            inc,
+            graceful: true,
+            inbound: in_send,
+            kill: Some(kill_send),
+            done,
+            mgr: mgr_slot,
+        });
+    }
+
+    /// Partition group of a bus address (node index, or `n + k` for twin `k`).
+    fn grp(&self, x: usize) -> u8 {
+        if x < self.nodes.len() {
+            self.group[x]
+        } else {
+            self.group[self.twins[x - self.nodes.len()].idx]
+        }
     }
 
     /// Kills the live incarnation of node `i`: from now on nothing it does is observable.
@@ -515,6 +621,34 @@ impl Cluster {
                         self.next_msg_id += 1;
                         self.inflight.push(InFlight { id: self.next_msg_id, from: i, to, msg: m.clone() });
                     }
+                    for k in 0..self.twins.len() {
+                        if self.twins[k].audience[i] && self.twins[k].live.is_some() {
+                            self.next_msg_id += 1;
+                            self.inflight.push(InFlight { id: self.next_msg_id, from: i, to: self.n() + k, msg: m.clone() });
+                        }
+                    }
+                }
+            }
+        }
+        // Twins: what an instance sends is Byzantine traffic to its audience.
+        for k in 0..self.twins.len() {
+            let mut sent = vec![];
+            if let Some(r) = &mut self.twins[k].out {
+                while let Some(m) = r.try_recv() {
+                    sent.push(m.message);
+                }
+            }
+            for m in sent {
+                self.hub.fault("byz_twin_message");
+                self.hub.ev(format!("twin{k} -> {}", describe_safe(&m)));
+                self.adversary.observe(&m);
+                let from = self.twins[k].idx;
+                for to in 0..self.n() {
+                    if self.is_byz(to) || !self.twins[k].audience[to] {
+                        continue;
+                    }
+                    self.next_msg_id += 1;
+                    self.inflight.push(InFlight { id: self.next_msg_id, from, to, msg: m.clone() });
                 }
             }
         }
@@ -540,12 +674,25 @@ impl Cluster {
         (0..self.inflight.len())
             .filter(|&k| {
                 let m = &self.inflight[k];
-                self.group[m.from] == self.group[m.to]
+                self.grp(m.from) == self.grp(m.to)
             })
             .collect()
     }
 
     pub fn deliver_msg(&mut self, to: usize, from: Option<usize>, msg: validator::Signed<validator::ConsensusMsg>) {
+        if to >= self.nodes.len() {
+            let k = to - self.nodes.len();
+            if let Some(live) = &mut self.twins[k].live {
+                let (ack, _ack_recv) = oneshot::channel();
+                self.hub.ev(format!(
+                    "{} => twin{k}: {}",
+                    from.map(|f| format!("n{f}")).unwrap_or("adv".into()),
+                    describe_safe(&msg)
+                ));
+                live.inbound.send(ConsensusReq { msg, ack });
+            }
+            return;
+        }
         let Some(live) = &mut self.nodes[to].live else {
             self.hub.ev(format!("   lost (n{to} is down): {}", describe_safe(&msg)));
             return;
@@ -568,6 +715,9 @@ impl Cluster {
             None => {
                 for n in &self.nodes {
                     n.clock.advance(d);
+                }
+                for t in &self.twins {
+                    t.clock.advance(d);
                 }
                 self.sim_ms += ms;
             }
@@ -592,10 +742,12 @@ impl Cluster {
             }
             Action::DeliverTo { to, n: cnt } => {
                 let to = (*to % n) as usize;
+                let nn = self.n();
+                let twin_of = |me: &Self, x: usize| x >= nn && me.twins[x - nn].idx == to;
                 for _ in 0..*cnt {
                     let Some(k) = (0..self.inflight.len()).find(|&k| {
                         let m = &self.inflight[k];
-                        m.to == to && self.group[m.from] == self.group[m.to]
+                        (m.to == to || twin_of(self, m.to)) && self.grp(m.from) == self.grp(m.to)
                     }) else {
                         break;
                     };
@@ -726,6 +878,23 @@ impl Cluster {
                 self.inflight.retain(|m| m.to == to || !is_commit_vote(&m.msg));
                 self.hide = Some((to, base));
             }
+            Action::Retwin { mask } => {
+                let k = self.twins.len() as u64;
+                if k == 0 {
+                    return;
+                }
+                for j in 0..self.n() {
+                    let v = (mask >> (2 * j as u64 % 64)) & 3;
+                    for t in 0..k {
+                        self.twins[t as usize].audience[j] = v % (k + 1) == t || v % (k + 1) == k;
+                    }
+                }
+                self.hub.fault("byz_twins_repartitioned");
+                self.hub.ev(format!(
+                    "twins' audiences: {:?}",
+                    self.twins.iter().map(|t| t.audience.iter().map(|b| if *b { '1' } else { '0' }).collect::<String>()).collect::<Vec<_>>()
+                ));
+            }
             Action::Stop { node } => {
                 let i = (*node % n) as usize;
                 if self.nodes[i].live.is_some() {
@@ -815,11 +984,23 @@ impl Cluster {
                 self.stop(i, "end of run");
             }
         }
+        let mut twin_tasks = vec![];
+        for t in &mut self.twins {
+            t.out = None;
+            if let Some(mut inc) = t.live.take() {
+                if let Some(k) = inc.kill.take() {
+                    let _ = k.send(());
+                }
+                twin_tasks.push(inc);
+            }
+        }
         // Unblock anything waiting for time.
         for round in 0..200 {
             self.run_steps(50_000).await;
+            twin_tasks.retain(|d| !d.done.is_finished());
             let alive: usize = self.nodes.iter().map(|n| n.dying.len()).sum::<usize>()
-                + self.sync_tasks.len();
+                + self.sync_tasks.len()
+                + twin_tasks.len();
             if alive == 0 && self.sched.live() == 0 {
                 return Ok(());
             }
@@ -948,6 +1129,7 @@ pub fn gen_cfg(seed: u64, profile: Profile) -> Cfg {
         persist_now: rng.gen_range(0..100) < 60,
         faults,
         n_actions,
+        twins: 0,
     }
 }
 
